@@ -31,6 +31,7 @@ func DefaultConfig() *Config {
 }
 
 type Exec struct {
+	siteBindings  []Val // captured-variable cells of the closure whose contract is being applied
 	P       *Program
 	D       *Decls
 	S       *Sorts
@@ -184,7 +185,7 @@ func (x *Exec) VerifyFunction(fn *ssa.Function, c *Contract) {
 	fr := &Frame{fn: fn, env: map[ssa.Value]Val{}, names: map[string]nameBinding{}, loopEntry: map[int]*loopSnap{}, contract: c}
 	for _, p := range fn.Params {
 		v := x.freshVal(st, p.Name(), p.Type())
-		if _, ok := p.Type().Underlying().(*types.Pointer); ok {
+		if _, ok := p.Type().Underlying().(*types.Pointer); ok && v.T.Sort == SRef {
 			st.assume(App(SBool, "<=", App(SInt, "rid", v.T), IntLit(0)))
 		}
 		if _, ok := p.Type().Underlying().(*types.Map); ok && v.T.Sort == SRef {
@@ -1528,7 +1529,7 @@ func sameKind(a, b ssa.Instruction) bool {
 
 func (x *Exec) noPanic(fr *Frame) bool {
 	if x.TopC == nil {
-		return false
+		return npSweep // audit mode (gvc npsweep): every function is held to the default run-time checks
 	}
 	_, ok := x.TopC.Flags["no_panic"]
 	if !ok && defaultNoPanic != "" {
@@ -1543,6 +1544,8 @@ func (x *Exec) noPanic(fr *Frame) bool {
 // a no_panic clause (a postcondition says nothing about an input on which the function panics, so a
 // change that turns an error return into an out-of-range panic would otherwise keep verifying);
 // `may_panic "<why>"` opts a function out.
+var npSweep = os.Getenv("GVC_NP_SWEEP") != ""
+
 var defaultNoPanic = func() string {
 	if v, ok := os.LookupEnv("GVC_DEFAULT_NOPANIC"); ok {
 		return v
@@ -1553,6 +1556,14 @@ var defaultNoPanic = func() string {
 // noPanicKind: `no_panic` alone covers every kind of run-time check; `no_panic index, slice, divzero`
 // restricts the F2 obligations to the listed kinds (the others are then assumptions of the claim).
 func (x *Exec) noPanicKind(kind string) bool {
+	if x.TopC == nil {
+		for _, k := range strings.Fields(strings.ReplaceAll(defaultNoPanic, ",", " ")) {
+			if k == kind {
+				return true
+			}
+		}
+		return false
+	}
 	v, has := x.TopC.Flags["no_panic"]
 	v = strings.TrimSpace(v)
 	if !has {
